@@ -1016,6 +1016,10 @@ def b_reversed(interp, it):
 
 
 def b_sorted(interp, it, *, key=None, reverse=False):
+    if isinstance(it, SymSet) and key is None and not reverse:
+        # iteration over a SymSet already visits the possible members in ascending order, each under its membership
+        # condition (if-converted by the for statement): no case split here
+        return it.copy()
     items = interp.iterate(it)
     if contains_sym(items) or key is not None and not callable(key):
         raise Unsupported("sorted() of symbolic elements")
